@@ -379,6 +379,45 @@ func c05Child(a *ChildArgs) {
 		for i := a.Shard; i < 400; i += a.NShards {
 			c05Poison(a, avoid, int64(i)*2654435761+17, true)
 		}
+		if a.Shard == 0 {
+			c05DepthLocated(a)
+		}
+	}
+}
+
+// c05DepthLocated: an error raised by a nesting guard is located like any other error of the position-tracking
+// parser: on the line where the over-deep construct stands (here line 3), inside that line.
+func c05DepthLocated(a *ChildArgs) {
+	for name, deep := range map[string]string{
+		"parentheses": strings.Repeat("(", 150) + "1" + strings.Repeat(")", 150), "calls": strings.Repeat("f(", 150) + "1" + strings.Repeat(")", 150),
+		"case": strings.Repeat("CASE WHEN a THEN ", 120) + "1" + strings.Repeat(" END", 120), "not": strings.Repeat("NOT ", 150) + "a", "signs": strings.Repeat("- ", 150) + "1",
+		"subqueries": strings.Repeat("(SELECT ", 70) + "1" + strings.Repeat(")", 70),
+	} {
+		text := "SELECT a\nFROM t\nWHERE b = " + deep
+		toks, err := mustTokenizer().Tokenize([]byte(text))
+		if err != nil {
+			continue
+		}
+		a.Rec.Count("evaluations", 1)
+		a.Rec.Distinct("texts", text)
+		p := parser.NewParser()
+		_, perr := p.ParseFromModelTokensWithPositions(toks)
+		p.Release()
+		var ge *goerrors.Error
+		if perr == nil || !errors.As(perr, &ge) {
+			continue
+		}
+		wit := map[string]interface{}{"text": trunc(text, 200), "error": firstLine(perr.Error())}
+		if ge.Location.Line != 3 || ge.Location.Column < 11 || ge.Location.Column > len(deep)+12 {
+			a.Rec.Viol("C05/depth-error/"+name+"/"+string(ge.Code)+"/positions", "a syntax error is located at the offending token", fmt.Sprintf("the over-deep construct is on line 3 from column 11; the error is located at %d:%d", ge.Location.Line, ge.Location.Column), wit)
+		}
+		if _, rerrs := gosqlx.ParseWithRecovery(text); len(rerrs) > 0 {
+			var pe *parser.ParseError
+			var ce *goerrors.Error
+			if errors.As(rerrs[0], &pe) && errors.As(pe.Cause, &ce) && (pe.Line != 3 || ce.Location.Line != 3) {
+				a.Rec.Viol("C05/depth-error/"+name+"/"+string(ce.Code)+"/recovery", "a syntax error is located at the offending token", fmt.Sprintf("the over-deep construct is on line 3; the recovery error says %d:%d, its cause %d:%d", pe.Line, pe.Column, ce.Location.Line, ce.Location.Column), wit)
+			}
+		}
 	}
 }
 
